@@ -220,12 +220,23 @@ def _block_data(spec, sector, shape):
 
 
 def make_indices(spec):
-    return tuple(
-        sr.BlockIndex(
-            {untuple(c): int(d) for c, d in ix["cm"]}, dual=bool(ix["dual"])
-        )
-        for ix in spec["indices"]
-    )
+    """Index objects of a spec. The argument form of the charge table varies
+    (decided by the spec's data seed, so nothing else shifts): mostly a sorted
+    dict, sometimes a dict in descending order or an iterable of pairs in
+    descending order - the constructor promises to sort either."""
+    out = []
+    seed = int(spec.get("seed", 0) or 0)
+    for i, ix in enumerate(spec["indices"]):
+        items = [(untuple(c), int(d)) for c, d in ix["cm"]]
+        form = (seed // 7 + 3 * i) % 12
+        if form == 0:
+            cm = dict(reversed(items))
+        elif form == 1:
+            cm = list(reversed(items))
+        else:
+            cm = dict(items)
+        out.append(sr.BlockIndex(cm, dual=bool(ix["dual"])))
+    return tuple(out)
 
 
 def oddpos_arg(label):
@@ -318,6 +329,11 @@ def build(spec):
                                   charge=charge, invalid_sectors="ignore", **kw)
     if dynamic:
         kw["symmetry"] = spec["sym"]
+    if (int(spec.get("seed", 0) or 0) // 11) % 5 == 0 and (
+            blocks or charge == GROUPS[spec["sym"]].zero):
+        # documented form: the total charge left out ("inferred from either
+        # the first sector or set to the identity charge")
+        return cls(indices=indices, blocks=blocks, **kw)
     return cls(indices=indices, charge=charge, blocks=blocks, **kw)
 
 
